@@ -1633,13 +1633,14 @@ namespace awkward {
       while (ncounted < tokenized.size()) {
         const std::string& word = tokenized[ncounted];
         bool drop = false;
-        if (in_line_comment) {
-          if (word == "\n") {
-            in_line_comment = false;
-          }
-          else {
-            drop = true;
-          }
+        if (word == "\n") {
+          // the end of a '\\' comment, otherwise plain whitespace: it must not
+          // stand between the two words of 'variable x' or 'x i-> stack'
+          in_line_comment = false;
+          drop = true;
+        }
+        else if (in_line_comment) {
+          drop = true;
         }
         else if (paren_depth > 0) {
           if (word == "(") {
